@@ -32,11 +32,13 @@ and chunking:
   changes it (`C09_only_the_reader_counts`), i.e. a token's line is 1 + the breaks consumed when it
   is emitted.
 
-`C09_eof_partial`: the same statement across `Tokenizer::end` (which re-runs the machine with
-`at_eof` set on the text a pending character reference gives back — never a line break — and then
-only takes `eof` transitions, none of which touches the line) is not restated as a theorem; the
-EOF token's line is decided on the real code by the EOF-line oracle of this check and for the
-model by the correspondence.
+* `C09_eof_line`: `Tokenizer::end` never moves the line (what the look-ahead machinery still holds
+  at the end of the input contains no line break; EOF transitions do not touch the counter), so
+  the tokens flushed at EOF and the EOF token carry 1 + the number of line breaks of the whole input.
+
+Not part of the model: the tree builder forwarding the number through `set_current_line` (the `tb`
+engine compares those calls), and the byte-level SIMD popcount (modelled as one bump per LF of a run;
+tied by the correspondence, which compares the line of every token).
 -/
 namespace H5V.Props.C09
 open H5V.Model.HtmlTok
@@ -135,7 +137,7 @@ satisfies the invariant, and its potential is `1 + brk false input` -/
 theorem C09_invariant_initial (st : State) (last : Option Str) (bom : Bool) (inp : Str) :
     LInv { state := st, lastStartTag := last, discardBom := bom } ∧
     Phi { state := st, lastStartTag := last, discardBom := bom } inp = 1 + brk false inp := by
-  refine ⟨linv_fresh _ rfl rfl rfl rfl rfl, ?_⟩
+  refine ⟨linv_fresh _ rfl rfl rfl, ?_⟩
   unfold Phi
   rw [stash_nil_of rfl (fun _ => rfl)]
   rfl
@@ -158,9 +160,26 @@ theorem C09_line_after_input (o : Opts) (pol : Pol) (st : State) (last : Option 
     (cs : List Str) (mf : Mach) (hne : cs ≠ [])
     (hs : Session o pol { state := st, lastStartTag := last, discardBom := bom } cs mf) :
     mf.line = 1 + brk false cs.flatten := by
-  have := session_line o pol hs (linv_fresh _ rfl rfl rfl rfl rfl) hne
+  have := session_line o pol hs (linv_fresh _ rfl rfl rfl) ⟨fun _ _ => rfl, fun _ => rfl, fun _ => rfl⟩ rfl hne
   rw [this, stash_nil_of rfl (fun _ => rfl)]
   rfl
+
+/-- **the EOF token's line**: after the chunks `cs` have been fed (any chunking) and `Tokenizer::end`
+has run, everything it emitted — the tokens flushed at EOF and the EOF token itself — carries
+`current_line` = one plus the number of line breaks of the whole input -/
+theorem C09_eof_line (o : Opts) (pol : Pol) (st : State) (last : Option Str) (bom : Bool)
+    (cs : List Str) (mf me : Mach) (hne : cs ≠ [])
+    (hs : Session o pol { state := st, lastStartTag := last, discardBom := bom } cs mf)
+    (hend : finish o pol mf = .ok me) :
+    me.line = 1 + brk false cs.flatten := by
+  have hi := session_linv o pol hs (linv_fresh _ rfl rfl rfl) ⟨fun _ _ => rfl, fun _ => rfl, fun _ => rfl⟩ rfl
+  rw [finish_line o pol mf me hi hend]
+  exact C09_line_after_input o pol st last bom cs mf hne hs
+
+/-- … and for an empty input -/
+theorem C09_eof_line_empty (o : Opts) (pol : Pol) (st : State) (last : Option Str) (bom : Bool) (me : Mach)
+    (hend : finish o pol { state := st, lastStartTag := last, discardBom := bom } = .ok me) : me.line = 1 :=
+  finish_line o pol _ me (linv_fresh _ rfl rfl rfl) hend
 
 /-- `brk` counts the LF characters left by the standard's newline normalisation (CRLF → LF,
 CR → LF) -/
